@@ -813,10 +813,73 @@ fn case_t(t: &mut Tape, st: &mut Stats) -> Verdict {
     case(t, st, 200)
 }
 
+/// (deep-nesting) a chain of 65..200 collections, each holding the handle of the next, released with `release -r`
+/// on its head: every collection of the chain is gone afterwards, and nothing else is.
+fn case_deep(t: &mut Tape, st: &mut Stats) -> Verdict {
+    let mut ctx = sdk_context();
+    let val = |r: &CommandResult| match r {
+        CommandResult::Continue(Some(v)) => Some(v.clone()),
+        _ => None,
+    };
+    let count = |ctx: &Context| match ctx.state.get("handles") {
+        Some(duckscript::types::runtime::StateValue::SubState(m)) => m.len(),
+        _ => 0,
+    };
+    // a bystander that must survive
+    let by = val(&exec(&mut ctx, "array", &["kept".to_string()])).unwrap_or_default();
+    let before = count(&ctx);
+    let depth = 65 + t.below(136);
+    let mut chain: Vec<(String, u8)> = vec![];
+    let mut inner = val(&exec(&mut ctx, "array", &["leaf".to_string()])).unwrap_or_default();
+    chain.push((inner.clone(), 0));
+    for _ in 1..depth {
+        let kind = t.below(3) as u8;
+        let h = match kind {
+            0 => val(&exec(&mut ctx, "array", &["x".to_string(), inner.clone()])),
+            1 => {
+                let h = val(&exec(&mut ctx, "map", &[]));
+                if let Some(h) = &h {
+                    let _ = exec(&mut ctx, "map_put", &[h.clone(), "child".to_string(), inner.clone()]);
+                }
+                h
+            }
+            _ => val(&exec(&mut ctx, "set_new", &[inner.clone(), "y".to_string()])),
+        };
+        let h = match h {
+            Some(h) if h.starts_with("handle:") => h,
+            other => return fail("C12/deep/create", json!({"got": format!("{:?}", other)})),
+        };
+        chain.push((h.clone(), kind));
+        inner = h;
+    }
+    let flag = *t.pick_ref(&["-r", "--recursive"]);
+    let r = exec(&mut ctx, "release", &[flag.to_string(), inner.clone()]);
+    let d = |what: &str, extra: serde_json::Value| json!({"chain_length": depth, "kinds_from_leaf_to_head": chain.iter().map(|c| ["array", "map", "set"][c.1 as usize]).collect::<Vec<_>>(), "release": format!("release {} <head>", flag), "mismatch": what, "detail": extra});
+    if val(&r).as_deref() != Some("true") {
+        return fail("C12/deep/release-output", d("release -r of the head", json!(show(&r))));
+    }
+    for (i, (h, kind)) in chain.iter().enumerate() {
+        let q = ["is_array", "is_map", "is_set"][*kind as usize];
+        let a = exec(&mut ctx, q, &[h.clone()]);
+        if val(&a).as_deref() != Some("false") {
+            return fail("C12/deep/still-live-after-recursive-release", d("a collection of the chain is still live", json!({"levels_below_the_head": depth - 1 - i, "query": q, "answer": show(&a)})));
+        }
+    }
+    let after = count(&ctx);
+    if after != before {
+        return fail("C12/deep/handle-table", d("handle table size after the release", json!({"before_the_chain": before, "after": after})));
+    }
+    if val(&exec(&mut ctx, "array_length", &[by.clone()])).as_deref() != Some("1") {
+        return fail("C12/deep/bystander", d("an unrelated array was affected", json!(null)));
+    }
+    st.class("recursive-release-deeper-than-64");
+    Verdict::Pass(Some(fp(&(depth, chain.iter().map(|c| c.1).collect::<Vec<_>>()))))
+}
+
 pub fn property() -> Property {
     Property {
         id: "C12",
-        rule: "histories of 1..60 (thorough ..200) operations over <= 5 live handles of mixed kinds: every command the property lists, indexes inside/at/beyond the end, negative, non-numeric and huge, values over hazard Unicode incl. empty, handle look-alikes, other live handles and released handles, use-after-release, kind confusion, release with and without -r; each operation is one run_instruction on a persistent SDK context. Oracle: Vec/BTreeMap/BTreeSet per live handle; outputs compared per step (map_keys / set_to_array as sets); after every rejected (error/false) step and at random other steps ALL live collections are re-read through the public commands and compared, released handles must answer false to is_array/is_map/is_set; handle distinctness checked at creation. Non-trivial: a kind-confused / use-after-release / unknown-handle step followed by a full re-read with >= 2 kinds live; distinct by history",
+        rule: "histories of 1..60 (thorough ..200) operations over <= 5 live handles of mixed kinds: every command the property lists, indexes inside/at/beyond the end, negative, non-numeric and huge, values over hazard Unicode incl. empty, handle look-alikes, other live handles and released handles, use-after-release, kind confusion, release with and without -r; each operation is one run_instruction on a persistent SDK context. Oracle: Vec/BTreeMap/BTreeSet per live handle; outputs compared per step (map_keys / set_to_array as sets); after every rejected (error/false) step and at random other steps ALL live collections are re-read through the public commands and compared, released handles must answer false to is_array/is_map/is_set; handle distinctness checked at creation; (deep-nesting) chains of 65..200 arrays / maps / sets each holding the next one's handle, released recursively from the head: all gone, handle table back to its size, a bystander untouched. Non-trivial: a kind-confused / use-after-release / unknown-handle step followed by a full re-read with >= 2 kinds live; distinct by history",
         assumptions: &[
             "values are free of '$', '%' and backslash (binding is C02's subject); array_join separators come from a pool outside the C09 known classes",
             "for a rejected operation only 'error result or false' is required, not a particular message",
@@ -830,6 +893,15 @@ pub fn property() -> Property {
                 },
                 case: case_q,
                 min_classes: &[("kind-confused-step", 3000), ("use-after-release-step", 1000), ("recursive-release", 1000), ("recursive-release-2-levels", 300), ("recursive-release-3-levels", 30)],
+            },
+            Section {
+                name: "deep-nesting",
+                plan: |t| match t {
+                    Tier::Quick => Plan::Random { cases: 400, max_len: 220 },
+                    Tier::Thorough => Plan::Random { cases: 8_000, max_len: 220 },
+                },
+                case: case_deep,
+                min_classes: &[("recursive-release-deeper-than-64", 300)],
             },
             Section {
                 name: "long-histories",
